@@ -61,6 +61,26 @@ def run(prop, tier, seed):
         ns = sorted(d)
         if len(ns) == 2 and d[ns[0]] > 0:
             recs.append({"kind": kind, "peak1": d[ns[0]], "peak2": d[ns[1]], "n1": ns[0], "n2": ns[1]})
+    # (b2) task churn (spec/props/C07tasks.tla): real allocations (counting allocator of the harness) while programs that
+    # keep spawning short-lived tasks run, under a small, a large and an unbounded budget; same Bounded law
+    tprogs, _ = vlib.gen_enumerate(prop, os.path.join(PROPS, "C07tasks.tla"), cfg=os.path.join(PROPS, "C07tasks.cfg"))
+    tcases = []
+    for c in tprogs:
+        for b in ([50], [20000], [-1]):
+            tcases.append(dict(c, id="%s@b%d" % (c["id"], b[0]), budgets=b, stats=True, maxsteps=3000000, bkey=b[0]))
+    tobs, _ = vlib.run_harness(tcases, wd, name="taskchurn", jobs=6, timeout=120)
+    tpeaks = {}
+    for c, o in zip(tcases, tobs):
+        mism = vlib.compare(c["expect"], o)
+        if mism:
+            rep.finding("C07|churn-output|%s" % c["kind"], c, o, mism, "task churn program output differs from the expected sum")
+            continue
+        tpeaks.setdefault("%s@budget%d" % (c["kind"], c["bkey"]), {})[c["n"]] = o.get("peak_live", 0)
+    for kind, d in sorted(tpeaks.items()):
+        ns = sorted(d)
+        if len(ns) == 2 and d[ns[0]] > 0:
+            recs.append({"kind": kind, "peak1": d[ns[0]], "peak2": d[ns[1]], "n1": ns[0], "n2": ns[1]})
+    cov["task_churn_runs"] = len(tcases)
     obsfile = os.path.join(wd, "peaks.ndjson")
     vlib.write_ndjson(obsfile, recs)
     res = vlib.tlc(os.path.join(PROPS, "C07gen.tla"), cfg=os.path.join(PROPS, "C07val.cfg"), env={"OBS": obsfile, "OUTDIR": outdir}, timeout=600)
